@@ -171,8 +171,8 @@ Print Assumptions C08_levels_mock_and_package.
 (* The hypothesis [untouched] of the map-valued theorems cannot be dropped: for a configured
    package that a recursive package also discovers, the code merges the recursive package's
    config into it (RootConfig.Initialize, second loop), so template-data (and replace-type)
-   entries of the recursive package are visible below the top level's - a level the property's
-   chain does not name.  (Scalars are not affected: C08_scalar.)  [untouchedb] is the boolean
+   entries of the recursive package become visible - a level the property's chain does not name
+   (see C08_recursive_parent_kind_conflict for its exact place).  (Scalars are not affected: C08_scalar.)  [untouchedb] is the boolean
    form of the guard. *)
 Theorem C08_recursive_parent_is_a_level :
   exists disc t m c path,
@@ -191,6 +191,30 @@ Proof.
   split; [reflexivity|]. split; [vm_compute; reflexivity|]. vm_compute. discriminate.
 Qed.
 Print Assumptions C08_recursive_parent_is_a_level.
+
+(* What the code computes for such a sub-package is ((sub <- top) <- parent): the first loop merges
+   the top level into the configured sub-package, the second loop merges the recursive package
+   (itself already merged with the top level) into the result.  Without kind conflicts this is
+   the chain [sub; top; parent].  With one it is no chain at all: below, the top level holds a
+   scalar under "a" and a string under "b", sub-package and recursive package hold maps under "a".
+   The sub-package's map shadows the scalar, and the recursive package's map is then merged into
+   it (as in the chain [sub; parent; top]) while "b" comes from the top level (as in
+   [sub; top; parent]).  The property ranks neither; the oracle accepts both, path by path. *)
+Theorem C08_recursive_parent_kind_conflict :
+  let top := {| c_ptr := c_ptr default_cfg; c_td := [(B "a", JBool true); (B "b", JStr (B "top"))]; c_rt := []; c_esr := None |} in
+  let par := {| c_ptr := ptr_of [(PRecursive, SBool true)];
+                c_td := [(B "a", JObj [(B "k4", JNum 4)]); (B "b", JNum 4020)]; c_rt := []; c_esr := None |} in
+  let sub := {| c_ptr := fun _ => None; c_td := [(B "a", JObj [(B "k3", JNum 3)])]; c_rt := []; c_esr := None |} in
+  let t := {| t_root := top; t_pkgs := [(B "m/p", {| pc_config := par; pc_ifaces := [] |});
+                                         (B "m/p/sub", {| pc_config := sub; pc_ifaces := [] |})] |} in
+  let m := {| m_pkg := B "m/p/sub"; m_iface := B "A"; m_idx := 0 |} in
+  exists c, mock_cfg (init_pure [(B "m/p", [B "m/p/sub"])] (init_pure [(B "m/p", [B "m/p/sub"])] t)) m = Some c
+    /\ look [B "a"; B "k4"] (tdj c) = Some (OLeaf (JNum 4))
+    /\ resolve [B "a"; B "k4"] [tdj sub; tdj top; tdj par] = None
+    /\ look [B "b"] (tdj c) = Some (OLeaf (JStr (B "top")))
+    /\ resolve [B "b"] [tdj sub; tdj par; tdj top] = Some (OLeaf (JNum 4020)).
+Proof. eexists. vm_compute. repeat split; reflexivity. Qed.
+Print Assumptions C08_recursive_parent_kind_conflict.
 
 Theorem C08_guard_boolean : forall disc pkg, untouchedb disc pkg = true -> untouched disc pkg.
 Proof. exact untouchedb_spec. Qed.
